@@ -14,9 +14,9 @@ import kit
 
 def run_pipelines(ctx, faults, label, runs=None, conns=None, reqs=None, perturb=True, stopopen=False):
     if runs is None:
-        runs = 60 if ctx.thorough else 8
-    conns = conns or (8 if ctx.thorough else 5)
-    reqs = reqs or (120 if ctx.thorough else 40)
+        runs = 40 if ctx.thorough else 8
+    conns = conns or (6 if ctx.thorough else 5)
+    reqs = reqs or (80 if ctx.thorough else 40)   # TLC validates ~2.5 ms per trace event: keep traces below ~50k events
     out = os.path.join(ctx.work, "pipe-%s.ndjson" % label)
     trace = os.path.join(ctx.work, "pipe-%s-trace.ndjson" % label)
     args = ["pipe-run", "-runs", str(runs), "-conns", str(conns), "-reqs", str(reqs), "-gate", "-fragment",
